@@ -9,6 +9,7 @@ import traceback
 import warnings
 
 sys.dont_write_bytecode = True
+sys.setrecursionlimit(6000)
 warnings.filterwarnings('ignore', category=SyntaxWarning)
 sys.path.insert(0, os.path.dirname(os.path.dirname(os.path.abspath(__file__))))
 
